@@ -10,7 +10,7 @@ import z3
 from flax import nnx
 
 from props import zoo
-from props.common import tier_params
+from props.common import E1, tier_params
 from props.lossframe import LossCase, run_case
 from symcore import sarray as S
 from symcore import values as V
@@ -441,7 +441,38 @@ def main(tier, seed):
     return rep.finish()
 
 
+def _sale_target_gradient(rep, sess, tier, seed):
+    """The SALE representation target z^{s'} is gradient-stopped: the gradient of the loss w.r.t. the embedding's
+    parameters equals the gradient of mean((z^{sa} - const(z^{s'}))^2).  The loss VALUE cannot show a misplaced
+    stop_gradient; the gradient w.r.t. the next observation (zero in both cases) cannot either."""
+    from rl_blox.blox.embedding import sale
+    B = 2
+    for mode in ("all-parameters", "seeded-parameters-and-observations"):
+        emb = zoo.sale(D, A, 2, seed + (0 if mode == "all-parameters" else 1))
+        gdef, st = nnx.split(emb)
+        rng = np.random.default_rng(seed)
+        obs, act, _, nobs, _ = batch_data(B, rng, False)
+
+        def f(state, obs, act, nobs, gdef=gdef):
+            e_ = nnx.merge(gdef, state)
+            g_real = nnx.grad(lambda m: sale.state_action_embedding_loss(m, obs, act, nobs))(e_)
+            g_ref = nnx.grad(lambda m: jnp.mean((m(obs, act)[0] - jax.lax.stop_gradient(m.state_embedding(nobs))) ** 2))(e_)
+            return jax.tree_util.tree_leaves(g_real), jax.tree_util.tree_leaves(g_ref)
+        ex = (st, obs, act, nobs)
+        kw = {} if mode == "all-parameters" else dict(overrides=lambda ins, ex=ex: ex, numeric_consts=True)
+        e = E1(rep, sess, f, ex, f"state_action_embedding_loss:parameter-gradient[{mode}]", validate_sets=[ex] if mode == "all-parameters" else None, soft=True, **kw)
+        r = e.obligation("gradient-wrt-embedding-parameters=gradient-with-the-target-held-constant",
+                         lambda i, o: [S.close(S.SA(a), S.SA(b)) for a, b in zip(o[0], o[1])],
+                         site="state_action_embedding_loss:target-embedding-is-gradient-stopped", timeout_s=20)
+        if r is True or r is False:
+            rep.extra.setdefault("sale_gradient_settled_at", mode)
+            return
+    for site_, why in e.pending:
+        rep.inconclusive_(site_, why)
+
+
 def _extra_cases(rep, sess, tier, seed):
+    _sale_target_gradient(rep, sess, tier, seed)
     pass
 
 
@@ -728,7 +759,38 @@ class EncoderLossRaw(EncoderLoss):
 EXTRA = [TD7Critic, MRQ, SALEEmbedding, EncoderLoss, EncoderLossRaw]
 
 
+def _sale_target_gradient(rep, sess, tier, seed):
+    """The SALE representation target z^{s'} is gradient-stopped: the gradient of the loss w.r.t. the embedding's
+    parameters equals the gradient of mean((z^{sa} - const(z^{s'}))^2).  The loss VALUE cannot show a misplaced
+    stop_gradient; the gradient w.r.t. the next observation (zero in both cases) cannot either."""
+    from rl_blox.blox.embedding import sale
+    B = 2
+    for mode in ("all-parameters", "seeded-parameters-and-observations"):
+        emb = zoo.sale(D, A, 2, seed + (0 if mode == "all-parameters" else 1))
+        gdef, st = nnx.split(emb)
+        rng = np.random.default_rng(seed)
+        obs, act, _, nobs, _ = batch_data(B, rng, False)
+
+        def f(state, obs, act, nobs, gdef=gdef):
+            e_ = nnx.merge(gdef, state)
+            g_real = nnx.grad(lambda m: sale.state_action_embedding_loss(m, obs, act, nobs))(e_)
+            g_ref = nnx.grad(lambda m: jnp.mean((m(obs, act)[0] - jax.lax.stop_gradient(m.state_embedding(nobs))) ** 2))(e_)
+            return jax.tree_util.tree_leaves(g_real), jax.tree_util.tree_leaves(g_ref)
+        ex = (st, obs, act, nobs)
+        kw = {} if mode == "all-parameters" else dict(overrides=lambda ins, ex=ex: ex, numeric_consts=True)
+        e = E1(rep, sess, f, ex, f"state_action_embedding_loss:parameter-gradient[{mode}]", validate_sets=[ex] if mode == "all-parameters" else None, soft=True, **kw)
+        r = e.obligation("gradient-wrt-embedding-parameters=gradient-with-the-target-held-constant",
+                         lambda i, o: [S.close(S.SA(a), S.SA(b)) for a, b in zip(o[0], o[1])],
+                         site="state_action_embedding_loss:target-embedding-is-gradient-stopped", timeout_s=20)
+        if r is True or r is False:
+            rep.extra.setdefault("sale_gradient_settled_at", mode)
+            return
+    for site_, why in e.pending:
+        rep.inconclusive_(site_, why)
+
+
 def _extra_cases(rep, sess, tier, seed):
+    _sale_target_gradient(rep, sess, tier, seed)
     for C in EXTRA:
         c = C()
         c.B_list = (2,)
